@@ -240,6 +240,22 @@ fn check_state(cx: &mut Ctx, st: &St, rep: &mut Report) -> Option<(String, Strin
     if subject::hasher_bytes(&cl) != before {
         return Some(("Hasher::clone:differs".into(), "clone has identical state".into(), "clone state differs".into()));
     }
+    // clone_from into a hasher of another key / mode with a history of its own gives the same state
+    // (derive(Clone) provides it through clone(); a hand-written one must copy every field)
+    {
+        let other = mode2_for(cx.mode);
+        let r = vcommon::catch(|| {
+            let mut dst = if matches!(cx.mode, ModeSpec::Hash) { ModeSpec::Keyed(*vcommon::TEST_KEY).hasher() } else { other.hasher() };
+            dst.update(&cx.data[..(st.c % 3000).min(cx.data.len())]);
+            dst.clone_from(&st.h);
+            subject::hasher_bytes(&dst)
+        });
+        match r {
+            Ok(b) if b == before => {}
+            Ok(_) => return Some(("Hasher::clone_from:differs".into(), "clone_from gives the source's state".into(), "state differs".into())),
+            Err(m) => return Some(("Hasher::clone_from:panic".into(), "no panic".into(), m)),
+        }
+    }
     // structural invariants the algorithm relies on
     let s = st.h.verif_state();
     let cs = &s.chunk_state;
@@ -337,9 +353,11 @@ fn enabled_ops(cfg: &Cfg, st: &St) -> Vec<(Op, u32)> {
     if cfg.with_reset && (st.c > 0 || st.offset != 0) {
         v.push((Op::Reset, 0));
     }
-    if st.c == 0 && st.offset == 0 {
-        for &o in &cfg.offsets {
-            if o != 0 {
+    // set_input_offset may be called again while nothing has been absorbed: from any offset to any
+    // other, back to 0 included (the last call wins)
+    if st.c == 0 && !cfg.offsets.is_empty() {
+        for &o in cfg.offsets.iter().chain(std::iter::once(&0u64)) {
+            if o != st.offset {
                 v.push((Op::SetOffset(o), 0));
             }
         }
@@ -402,8 +420,10 @@ pub fn explore(cfg: &Cfg, mode: &ModeSpec, lname: &str, level: P, stream: &str, 
         None
     };
     let init = St { h: fresh.clone(), h2, c: 0, dev: 0, offset: 0, depth: 0, updates: 0, node: 0 };
-    let mut seen: HashMap<(u128, usize, u32), ()> = HashMap::new();
-    seen.insert((vcommon::fingerprint(&cx.fresh_bytes), 0, 0), ());
+    // merge key = implementation state + model state (bytes absorbed, expected offset) + deviations used:
+    // two histories are only merged if the model expects the same of them
+    let mut seen: HashMap<(u128, usize, u64, u32), ()> = HashMap::new();
+    seen.insert((vcommon::fingerprint(&cx.fresh_bytes), 0, 0, 0), ());
     rep.inc("states");
     let mut queue = VecDeque::new();
     if let Some((key, exp, obs)) = check_state(&mut cx, &init, rep) {
@@ -469,6 +489,39 @@ pub fn explore(cfg: &Cfg, mode: &ModeSpec, lname: &str, level: P, stream: &str, 
                     continue;
                 }
                 rep.inc("reset_checks");
+                // ... and behaves like one (whatever the state copy may not show - a field added to the
+                // struct, say): the reset hasher is driven through a few updates, among them longer ones
+                // than any earlier offset would have allowed, and compared with the spec
+                let probe_lens: [&[usize]; 3] = [&[1025], &[1, 2047, 3000], &[7 * 1024 + 5]];
+                let mut bad = None;
+                for pl in probe_lens {
+                    let total: usize = pl.iter().sum();
+                    if total > cx.data.len() {
+                        continue;
+                    }
+                    let r = vcommon::catch(|| {
+                        let mut p = succ.clone();
+                        let mut at = 0;
+                        for &k in pl {
+                            p.update(&cx.data[at..at + k]);
+                            at += k;
+                        }
+                        (p.count(), *p.finalize().as_bytes())
+                    });
+                    rep.inc("post_reset_probes");
+                    let exp = cx.oracle.node_range(0, total, 0);
+                    let ok = matches!(&r, Ok((c, h)) if *c == total as u64 && h[..] == exp.root_block(0)[..32]);
+                    if !ok {
+                        bad = Some(format!("updates {:?} after the reset: {:?}", pl, r.map(|x| (x.0, vcommon::hex(&x.1)))));
+                        break;
+                    }
+                }
+                if let Some(b) = bad {
+                    let key = "Hasher::reset:behaves-differently-from-fresh";
+                    let rj = cx.replay_json(st.node, Some(op), key, "a reset hasher hashes like a new one".into(), b.clone());
+                    rep.violation(key, format!("reset after {} bytes at offset {} ({}): {}", st.c, st.offset, lname, b), rj);
+                    continue;
+                }
             }
             // second lane
             let h2 = match &st.h2 {
@@ -489,7 +542,7 @@ pub fn explore(cfg: &Cfg, mode: &ModeSpec, lname: &str, level: P, stream: &str, 
                 None => None,
             };
             let bytes = subject::hasher_bytes(&succ);
-            let key = (vcommon::fingerprint(&bytes), nc, st.dev + cost);
+            let key = (vcommon::fingerprint(&bytes), nc, noff, st.dev + cost);
             if seen.contains_key(&key) {
                 rep.inc("merges");
                 continue;
